@@ -118,7 +118,7 @@ register("C13", run=run_c13, tie="coq/SegLog/Cases.v vs log/log.go, log/segment.
 # which events a property's theorems speak about (a disagreement between model and code on one of
 # these breaks the tie for that property); monitor tags the property owns
 NODE_PROPS = {
- "C01": dict(events={"EVoteReq", "EVoteResult", "ETimeout", "ETimeoutNowReq", "ERestart", "LReplUpdate", "EAppendReq"}, tags={"C01"}),
+ "C01": dict(events={"EVoteReq", "EVoteResult", "ETimeout", "ETimeoutNowReq", "ERestart", "LReplUpdate", "EAppendReq"}, tags={"C01", "C05"}),
  "C02": dict(events={"EAppendReq", "ESnapReq", "LClient", "LReplUpdate", "LFlrSend", "LFlrResp", "EVoteReq", "ERestart", "LFlrSnapInstalled"}, tags={"C02"}),
  "C03": dict(events={"EAppendReq", "ESnapReq", "LClient", "LReplUpdate", "ERestart", "ESnapRun"}, tags={"C03"}),
  "C04": dict(events={"EAppendReq", "LFlrSend", "LClient", "ESnapReq", "ERestart"}, tags={"C04"}),
@@ -143,13 +143,14 @@ def event_kind(desc_case_line):
 def run_node(pid, tier, seed):
     spec = NODE_PROPS[pid]
     wd = vlib.workdir(pid)
+    # the corpus of targeted schedules runs first, then the random drivers
     if tier == "quick":
-        plan = [("cluster", [seed, 8, 250]), ("node1", [seed, 16, 40])]
+        plan = [("scenarios", []), ("cluster", [seed, 8, 250]), ("node1", [seed, 16, 40])]
     else:
-        plan = [("cluster", [seed, 160, 400]), ("node1", [seed, 300, 60])]
+        plan = [("scenarios", []), ("cluster", [seed, 160, 400]), ("node1", [seed, 300, 60])]
     metas, broken, viols = {}, None, []
     for drv, args in plan:
-        rc, out = vlib.vh(["raft", drv] + args + [wd], timeout=3000)
+        rc, out = vlib.vh(["raft", drv] + (args + [wd] if drv != "scenarios" else [wd, seed]), timeout=3000)
         if rc != 0:
             # the harness itself died (e.g. SIGSEGV through an unmapped segment): that is a finding for C15/C09
             sig = "harness-died " + drv
